@@ -4,6 +4,20 @@ VERIF = os.path.dirname(os.path.dirname(os.path.abspath(__file__)))
 ALL = ["C%02d" % i for i in range(1, 21)]
 
 CLAIMS = {
+ "C07": dict(
+    text="Coq theorems: every Runge-Kutta order condition (all rooted trees up to the declared order, enumeration "
+         "proved complete) for the five tableaux as regenerated from /repo on every run - rk4/rk38 order exactly 4, "
+         "euler 1, rk23 3(2), rk45 5(4) with FSAL rows, estimator orders, exponents and method-name bindings; "
+         "structure theorems of the fixed-step driver for any carrier/field/tableau (y(ts0)=y0, one output per time, "
+         "prefix independence, exactly s evaluations per interval) and of the adaptive controller (committed steps "
+         "have scaled error < 1, clipped steps land on the target, step-factor bounds). The Gallina models are run at "
+         "IEEE binary64 by vm_compute against the implementation: fixed-step bit for bit (trajectory and every fcn "
+         "call), adaptive on decisions and to 2^-30.",
+    note="Trusted: Coq kernel + vm_compute incl. PrimFloat primitives; tableau translator; harness. Butcher's theorem "
+         "(order conditions <=> local error) is cited, not formalised; accuracy/reversal/tuple clauses are additionally "
+         "exercised on closed-form problems as an implementation oracle.",
+    technique="Coq proof over translator-regenerated tableaux (order conditions by complete tree enumeration) + float-instance model correspondence",
+    ref="DESIGN.md section 7, C07"),
  "C18": dict(
     text="Coq theorems over a model of get_method and of the code in front of it in all ten functionals: "
          "dispatch is case-insensitive for every string, unknown names are rejected (never defaulted), callables are "
